@@ -725,21 +725,20 @@ def f8(run, project):
                 body = lp
         if body:
             break
-    pair = None
+    # the two pending characters: the names whose blankness (`X.strip()`) the steps branch on, in the order they are tested
+    order_ = []
     for b in body or []:
-        for k, e, _n in b.effects:
-            if k == "yield" and isinstance(e, ast.Call) and call_name(e) == "int" and len(e.args) == 2 and isinstance(e.args[0], ast.BinOp) \
-                    and isinstance(e.args[0].op, ast.Add) and all(isinstance(x, ast.Name) for x in (e.args[0].left, e.args[0].right)):
-                pair = (e.args[0].left.id, e.args[0].right.id)
-    atoms = {a for b in body or [] for a in View(b).conds()}
-    if pair is None:   # the emitting statement itself, when the loop was not summarised (e.g. its test folded to false)
+        for a_, _v, _n in b.cond:
+            if a_.endswith(".strip()") and a_[:-len(".strip()")].isidentifier() and a_[:-len(".strip()")] not in order_:
+                order_.append(a_[:-len(".strip()")])
+    pair = tuple(order_) if len(order_) == 2 else None
+    if pair is None and len(order_) == 1:
+        # one of the two blank tests is gone: still this form (the emitting statement names both)
         for y in [y for y in walk_no_nested(fn) if isinstance(y, ast.Yield) and isinstance(y.value, ast.Call) and call_name(y.value) == "int"]:
             a0 = y.value.args[0] if y.value.args else None
-            if isinstance(a0, ast.BinOp) and isinstance(a0.left, ast.Name) and isinstance(a0.right, ast.Name):
+            if isinstance(a0, ast.BinOp) and isinstance(a0.left, ast.Name) and isinstance(a0.right, ast.Name) and order_[0] in (a0.left.id, a0.right.id):
                 pair = (a0.left.id, a0.right.id)
-    inits = {norm(a_.targets[0]) for a_ in fn.body if isinstance(a_, ast.Assign) and isinstance(a_.value, ast.Constant) and isinstance(a_.value.value, bytes)}
-    tested = {f"{v}.strip()" for v in pair or ()} & {a for b in body or [] for a in View(b).conds()}
-    if not pair or not tested:
+    if not pair:
         run.info("F8: the hex scanner is not in the two-pending-characters form; the transition table is not applied to this form")
         return
     h, l = pair
@@ -841,6 +840,12 @@ def f9(run, project):
         for k, e, _ in p.effects:
             if k in ("bind", "update") and isinstance(e, (ast.Assign, ast.AugAssign)) and "next(" in norm(e.value):
                 srcs.add(norm(e.target if isinstance(e, ast.AugAssign) else e.targets[0]))
+    for p in ps:
+        for k, e, _ in p.effects:
+            if k == "update" and isinstance(e, ast.AugAssign) and "next(" in norm(e.value):
+                run.ob("F9", isinstance(e.op, ast.Add), "the look-ahead bytes are collected by concatenation",
+                       f"`{norm(e)[:70]}`: the two look-ahead bytes are not appended to the look-ahead", module=am, node=e, func=det.name,
+                       construct="auto look-ahead update")
     n = 0
     for p in ps:
         want = paths.decide(rows, "binary", View(p, closed=(E,)))
